@@ -2,11 +2,11 @@ SPECIFICATION Spec
 CONSTANTS
   Tables <- MCTables
   TokText <- MCTokText
-  TokSets <- TokFull
+  TokSets <- TokLattice
   MaxArgs = 2
   Flags0 <- MCFlags0
   Int0 <- MCInt0
-  TableSet <- TS12
+  TableSet <- TS3
   Histories <- HistCanon
   Argvs <- ArgvsBounded
   Emit <- EmitJson
